@@ -92,6 +92,9 @@ func runC02case(t *vf.T, c c02case) {
 		if c.Kills[0].What == "kill-target-hold" {
 			sig += "/reply-held"
 		}
+		if c.Kills[0].What == "kill-target-midbody" {
+			sig += "/mid-body"
+		}
 	}
 	switch {
 	case out.TimedOut:
@@ -139,6 +142,10 @@ func runC02case(t *vf.T, c c02case) {
 	}
 	if ls.IP != nil {
 		t.Count("replies_delivered_after_their_machine_was_seen_stopped", atomic.LoadInt64(&ls.IP.held))
+		t.Count("read_replies_cut_mid_body", atomic.LoadInt64(&ls.IP.midbody))
+		ls.IP.mu.Lock()
+		t.Count("bytes_of_read_replies_cut_mid_body", ls.IP.midbodyBytes)
+		ls.IP.mu.Unlock()
 	}
 	t.Count("kill_actions_fired", int64(fired))
 	t.Count("machines_killed", int64(kills))
@@ -197,6 +204,13 @@ func runC02(r *vf.Runner) {
 				continue
 			}
 			run(c02case{Program: p, Kills: []ipAction{{Method: "Worker.Run", Ordinal: k, When: "after", What: "kill-target-hold"}}})
+		}
+		// the machine dies in the middle of a streamed Worker.Read reply (shuffle read or final scan)
+		for k := 0; k < bounds["Worker.Read"]; k++ {
+			if r.Quick() && k%4 != 0 {
+				continue
+			}
+			run(c02case{Program: p, Kills: []ipAction{{Method: "Worker.Read", Ordinal: k, When: "after", What: "kill-target-midbody"}}})
 		}
 		// kill another machine than the one addressed
 		for k := 0; k < 6; k++ {
